@@ -53,7 +53,16 @@ def debit (ch : Chain) (who : String) (n : Nat) : Chain :=
 
 def setSlot (ch : Chain) (i : Nat) (x : Inst) : Chain := { ch with slots := ch.slots.set i (some x) }
 
-inductive ChainErr | funds | duplicate | notAdmin | badCode | noLabel
+/-- what an execute carries: an amount of the chain's one denomination (0 = no coins at all), or a coin list holding a
+zero-amount coin, which the bank refuses ("Cannot transfer empty coins amount") -/
+inductive Funds | amount (n : Nat) | zeroCoin
+  deriving Repr, DecidableEq
+
+def Funds.n : Funds → Nat
+  | .amount n => n
+  | .zeroCoin => 0
+
+inductive ChainErr | funds | duplicate | notAdmin | badCode | noLabel | emptyCoins
   deriving Repr, DecidableEq
 
 /-- what the caller of one operation gets back -/
@@ -77,7 +86,7 @@ inductive Shape
   | store
   | setfail (slot : Nat) (marker : Option String)
   | inst (code : Nat) (sender : String) (funds : Nat) (label : String) (admin : Option String) (salt : Option String)
-  | exec (slot : Nat) (sender : String) (funds : Nat)
+  | exec (slot : Nat) (sender : String) (funds : Funds)
   | query (slot : Nat)
   | sudo (slot : Nat)
   | mig (slot : Nat) (sender : String) (newCode : Nat)
@@ -92,7 +101,7 @@ def blockHeight : String := "12345"
 /-- the context the chain gives the contract -/
 def Shape.ctx : Shape → CtxIn
   | .inst _ sender funds .. => { sender := sender, funds := toString funds, height := blockHeight, seed := "", fail := "-" }
-  | .exec _ sender funds => { sender := sender, funds := toString funds, height := blockHeight, seed := "", fail := "-" }
+  | .exec _ sender funds => { sender := sender, funds := toString funds.n, height := blockHeight, seed := "", fail := "-" }
   | _ => { sender := "", funds := "0", height := blockHeight, seed := "", fail := "-" }
 
 def echoAttrsAt (addr : String) (call : Call) : List (String × String) :=
@@ -151,14 +160,15 @@ def stepWith (p : Program) (ch : Chain) (s : Shape) (o : Outcome) : Chain × Res
   | .exec slot sender funds =>
     match ch.slots[slot]? with
     | some (some x) =>
-      if balOf ch sender < funds then (ch, .chainErr .funds)
+      if funds = .zeroCoin then (ch, .chainErr .emptyCoins)
+      else if balOf ch sender < funds.n then (ch, .chainErr .funds)
       else
         match o with
         | .decodeErr t => (ch, .decodeErr t)
         | .ran call m _ =>
           if failing x.fail call then (ch, .handlerErr (errText p m call))
           else
-            (setSlot (debit ch sender funds) slot { x with bal := x.bal + funds, last := some (call.handler, echoText slot call) },
+            (setSlot (debit ch sender funds.n) slot { x with bal := x.bal + funds.n, last := some (call.handler, echoText slot call) },
              .resp (respText ("execute[_contract_address=#" ++ toString slot ++ "]") slot call))
     | _ => (ch, .missing "no-contract")
   | .query slot =>
@@ -251,7 +261,7 @@ inductive ProxyOp
   | store
   | setfail (slot : Nat) (marker : Option String)
   | inst (code : Nat) (sender : String) (setters : List MtSetter) (args : List Json)
-  | exec (slot : Nat) (sender : String) (funds : Option Nat) (msg : MsgRef)
+  | exec (slot : Nat) (sender : String) (funds : Option Funds) (msg : MsgRef)
   | query (slot : Nat) (msg : MsgRef)
   | sudo (slot : Nat) (msg : MsgRef)
   | mig (slot : Nat) (sender : String) (newCode : Nat) (args : List Json)
@@ -261,7 +271,7 @@ def ProxyOp.shape : ProxyOp → Shape
   | .store => .store
   | .setfail s m => .setfail s m
   | .inst code sender ss _ => let o := optsOf ss; .inst code sender o.funds o.label o.admin o.salt
-  | .exec slot sender funds _ => .exec slot sender (funds.getD 0)
+  | .exec slot sender funds _ => .exec slot sender (funds.getD (.amount 0))
   | .query slot _ => .query slot
   | .sudo slot _ => .sudo slot
   | .mig slot sender nc _ => .mig slot sender nc
@@ -347,6 +357,7 @@ def downcastError : ErrDyn → Converted
 def Res.errDyn : Res → Option ErrDyn
   | .handlerErr _ => some .own
   | .chainErr .funds => some .std
+  | .chainErr .emptyCoins => some .std
   | .chainErr _ => some .other
   | .decodeErr _ => some .std
   | _ => none
